@@ -37,6 +37,14 @@ def _faithful_names(e) -> Set[str]:
             for c in ast.iter_child_nodes(n):
                 go(c, True)
             return
+        if isinstance(n, (ast.ListComp, ast.GeneratorExp, ast.SetComp)):
+            # [f(x) for x in C] carries C only as far as f carries x
+            inner = _faithful_names(n.elt)
+            for g in n.generators:
+                tn = {t.id for t in ast.walk(g.target) if isinstance(t, ast.Name)}
+                go(g.iter, lossy or not (tn & inner) or bool(g.ifs))
+            out.update(inner - {t.id for g in n.generators for t in ast.walk(g.target) if isinstance(t, ast.Name)} if not lossy else set())
+            return
         for c in ast.iter_child_nodes(n):
             go(c, lossy)
 
